@@ -440,6 +440,16 @@ def load_known():
 def classify(pid, rec, known):
     """returns the id of the listed known finding this judge failure belongs to, or None"""
     jf = rec["judge_fail"]
+    # The model mirrors the unchanged library bug for bug, the listed findings included. A failure in the class of a listed
+    # finding is that finding only if the model fails the same way: where the implementation has already parted from the model
+    # (at this operation or before it in the same history) it is a different failure that merely lies in the same region.
+    if any(d["op_index"] <= jf["op_index"] for d in rec.get("disagreements", [])):
+        d = [d for d in rec["disagreements"] if d["op_index"] <= jf["op_index"]][0]
+        for k in known["findings"]:
+            if pid in k["properties"] and plans.known_match(k, rec, jf):
+                jf["beyond_known"] = "in the region of the known finding %s, but not that finding: the model of the unchanged library answers op %d `%s` with %s" % (
+                    k["id"], d["op_index"], d["op"][:80], d["model"][:200])
+        return None
     for k in known["findings"]:
         if pid not in k["properties"]:
             continue
@@ -548,6 +558,8 @@ def check(pid, tier, seed):
                   if v["judge_fail"].get("consistency") else "the judge (Layer S/F) on the implementation")
             f.write("# VIOLATION of %s found by %s\n# history %s, op %d: %s\n# %s\n" %
                     (pid, by, v["h"]["id"], v["judge_fail"]["op_index"], v["judge_fail"]["op"], v["judge_fail"]["what"]))
+            if v["judge_fail"].get("beyond_known"):
+                f.write("# %s\n" % v["judge_fail"]["beyond_known"])
             f.write("# replay: /verif/bsv replay %s\n" % path)
             f.write("history %s\n" % v["h"]["id"] + "\n".join(v["h"]["lines"]) + "\n")
         print("VIOLATION property=%s replay=%s" % (pid, path))
